@@ -176,6 +176,18 @@ func (fr *Frame) callSiteObligations(b *ssa.BasicBlock, c *ssa.CallCommon, st *S
 		vc.callOrd["callreq:"+name]++
 		o := vc.addObl("call-req", root, fmt.Sprintf("call-req:%s:%s#%d:%d", root, name, ord, k), reach, g, pos)
 		o.Clause = cs.Clause.Text
+		// vacuity guard: the call site itself is reachable under everything assumed so
+		// far (an obligation at a call the model cannot reach would hold of anything)
+		gk := fmt.Sprintf("cover:%s:call:%s#%d", root, name, ord)
+		if !vc.callCovers[gk] {
+			if vc.callCovers == nil {
+				vc.callCovers = map[string]bool{}
+			}
+			vc.callCovers[gk] = true
+			c := vc.addObl("cover", root, gk, "true", reach, pos)
+			c.ExpectSat = true
+			c.Clause = "the call site is reachable"
+		}
 	}
 }
 
